@@ -688,7 +688,8 @@ Qed.
 Lemma rr_loop_rstep x : forall is_ st, rounds_bounded st -> rstep st (fst (rr_loop st x is_)).
 Proof.
   induction is_ as [|i rest IH]; intros st B; cbn [rr_loop]; [apply rstep_refl|].
-  destruct (get_round st i) as [tr|] eqn:Htr; [|apply rstep_refl].
+  destruct (get_round st i) as [tr|] eqn:Htr;
+    [|destruct (lower_bound st) as [lb0|]; [destruct (i <=? lb0); [apply IH; exact B|apply rstep_refl]|apply rstep_refl]].
   destruct (get_peerset st i) as [tps|]; [|apply rstep_rv, rv_fail].
   pose proof (witnesses_decided_sticky tr tps) as St.
   destruct (witnesses_decided tr tps) as [d tr']. cbn [snd] in St.
